@@ -149,3 +149,34 @@ func (ex *Exec) syncMapElem(recv Value) types.Type {
 	}
 	return nil
 }
+
+// govalidator (reflection over struct tags): outside the verified subset
+func init() {
+	regExtern("github.com/asaskevich/govalidator.ValidateStruct", "govalidator.ValidateStruct: (bool, error) - either a nil error, or an error of dynamic type govalidator.Errors; no effect on modelled state",
+		func(ex *Exec, fr *Frame, st *State, pc *Term, fn *ssa.Function, args []Value, pos token.Pos) (Value, *Term) {
+			okv := Fresh("validate.ok", BoolSort)
+			var errT types.Type
+			for _, pkg := range ex.V.prog.AllPackages() {
+				if pkg.Pkg.Path() == "github.com/asaskevich/govalidator" {
+					if tn, ok := pkg.Members["Errors"].(*ssa.Type); ok {
+						errT = tn.Type()
+					}
+				}
+			}
+			if errT == nil {
+				panic(unsupported("govalidator.Errors not found"))
+			}
+			tag := Const(typeTag(errT), 64)
+			pay := Fresh("validate.err", BV64)
+			ex.assume(pc, And(Not(Eq(pay, C64(0))), ULt(pay, st.next)))
+			return VTuple{[]Value{VBool{okv}, VIface{Ite(okv, C64(0), tag), Ite(okv, C64(0), pay)}}}, pc
+		})
+	regExtern("(github.com/asaskevich/govalidator.Errors).Errors", "govalidator.Errors.Errors(): the list itself (opaque content)", pureOpaque)
+	regExtern("(github.com/asaskevich/govalidator.Errors).Error", "govalidator.Errors.Error(): opaque text", pureOpaque)
+}
+
+func init() {
+	regPrefix("github.com/google/uuid.", "uuid: opaque values", pureOpaque)
+	regPrefix("(github.com/google/uuid.UUID).", "uuid: opaque values", pureOpaque)
+	regExtern("os.Getenv", "os.Getenv: opaque string", pureOpaque)
+}
